@@ -74,7 +74,7 @@ def build_jobs(ctx):
     if ctx.quick:
         muts = slice_for_seed(muts, ctx.seed, 40000)
     else:
-        g2 = ctx.tlc("MC_ParseInv", "Gen_Mut2", workers=1, env={"SEEDS": sm}, simulate=60000, depth=3,
+        g2 = ctx.tlc("MC_ParseInv", "Gen_Mut2", workers=1, env={"SEEDS": sm}, simulate=10000, depth=3,
                      tlc_seed=16, count=False, name="GenMut2", xmx="6g", timeout=3000)
         m2 = [parse_seq("<<" + x + ">>") for x in tlc_lines(g2, "M")]
         pool["double_mutations_sampled"] = len(m2)
